@@ -1,13 +1,18 @@
 PROP = dict(
     properties="Properties/C10.v",
     harness_mods=["Harness/C10.v"],
-    runs=[dict(cmd="c10", quick=40, thorough=1500)],
-    trusted_base=["hand-written Gallina model coq/Trie/Model.v of pkg/core/mpt (tied by correspondence)",
-                  "coq/Common/Sha256.v (executable SHA-256, compared with crypto/sha256 on every run, not proved against FIPS 180-4)"],
-    assumptions=["collision resistance of double SHA-256 appears only as the disjunct 'or a collision is exhibited'"],
-    modelled="trie operations modelled on expanded tries; flush/collapse/reload are the identity in the model and tied by correspondence",
+    runs=[dict(cmd="c10", quick=32, thorough=1200)],
+    trusted_base=[
+        "hand-written Gallina model coq/Trie/Model.v of pkg/core/mpt (put, delete, put_batch, get, traverse/Seek/Find, GetProof, VerifyProof, node codec), tied to the Go code by differential evaluation only",
+        "coq/Common/Sha256.v: executable SHA-256, not proved against FIPS 180-4, compared with crypto/sha256 on every run; no theorem depends on it (theorems are over an arbitrary H)",
+    ],
+    assumptions=[
+        "Merkle-proof theorems assume only that H returns 32 bytes; collision resistance of double SHA-256 is not assumed: the statements end in '... or two different byte strings with the same double hash exist'",
+        "theorems are about expanded tries (no hash nodes inside); Flush/Collapse/reload from the store are the identity in the model and tied by correspondence",
+    ],
+    modelled="pkg/core/mpt is modelled (same case split as trie.go/batch.go/billet.go/proof.go), not translated; reference counting, GC and the store itself are not modelled (C11)",
 )
 META = dict(
-    text="(in progress)",
-    note="(in progress)",
+    text="Proved in Coq for all tries/keys/operation sequences and any hash function: Put/Delete/PutBatch update the content like a finite map and keep the normal form of doc.go; the normal form is unique, so any two histories of puts, deletes and batches with the same final content give the same tree and root (= root of a fresh trie built from the content); collapsing keeps the root; Get, the sorted listing, ordered traversal in both directions with any start point, TrieStore.Seek and Trie.Find equal the range query on the content; a membership proof of a present key verifies, and whatever byte strings are supplied a verified value is the stored one, unless two different strings with the same double hash are exhibited. The model follows the mechanism of pkg/core/mpt and is tied to the real mpt.Trie / TrieStore / VerifyProof by differential evaluation (histories with Flush/Collapse/reopen in three storage modes, tampered proofs, malformed node encodings) with byte-equal state roots through an executable SHA-256. Partial: lazy expansion of hash nodes through the store is covered by the correspondence only. Five defects of the unchanged code are reported as known findings (F3, F24, F25, F26, F27); the model specifies the repaired behaviour.",
+    note="Trusted: Coq kernel and vm_compute, the hand-written model (tie is differential, not by translation), Sha256.v as a correspondence-checked component, the Go harness, ./check. Assumed: digest length 32 bytes; nothing else about the hash.",
 )
